@@ -37,7 +37,7 @@ MANIFEST = dict(
          "vectorised arithmetic = element-wise arithmetic; adsorbate property reads are oracles.",
     technique="Coq proof (induction over data lists with loop invariants; real analysis over generated formulas); model execution inside Coq vs implementation")
 
-HEADER = c14.HEADER.replace('Charact.QExec.', 'Charact.PsdMeso Charact.QExec.')
+HEADER = c14.HEADER.replace('Charact.QExec.', 'Charact.PsdMeso Charact.QExec Charact.QExecPsd.')
 RGAS = 8.31446261815324
 ADS = dict(molar_mass=28.0134, saturation_pressure=101325.0, liquid_density=0.808, surface_tension=8.88, cross_sectional_area=0.162)
 ADS2 = dict(molar_mass=39.948, saturation_pressure=101325.0, liquid_density=1.3954, surface_tension=12.5, cross_sectional_area=0.142)
@@ -273,7 +273,7 @@ def formula_goals(c, t, k, rnd):
 
 
 def run(rep, tier, seed):
-    vlib.standard_proof_phase(rep, 'C16', extra_targets=['Charact/QExec.vo'])
+    vlib.standard_proof_phase(rep, 'C16', extra_targets=['Charact/QExecPsd.vo'])
     explore(rep, tier, seed)
     if rep.broken and not rep.violations and tier != 'thorough':
         explore(rep, 'thorough', seed + 1)
